@@ -343,6 +343,7 @@ class IMAPConnection:
         try:
             await self._run_state(state)
         finally:
+            state.close()
             self._print('%s ---| %s', b'<disconnected>')
 
     async def _run_state(self, state: ConnectionState) -> None:
